@@ -48,6 +48,9 @@ func (controller *AmountController) GetWalletAmount(writer http.ResponseWriter, 
 	}
 	var balance uint64
 	for _, utxo := range utxos {
+		if utxo == nil {
+			continue
+		}
 		now := controller.watch.Now().UnixNano()
 		balance += utxo.Value(now, controller.settings.HalfLifeInNanoseconds(), controller.settings.IncomeBase(), controller.settings.IncomeLimit())
 	}
